@@ -6,6 +6,7 @@ import (
 	"os"
 	"sort"
 	"testing"
+	"time"
 )
 
 func addFree(rep *Report, f *Free, prefix string, replay any) {
@@ -75,6 +76,7 @@ func hangKeyFree(kind string, f *Free) string {
 // cut into arbitrary segments, Rerror and mismatched replies; Tag-interface sessions; and the
 // tag-space wrap (more than 65535 calls on one connection) with tag accounting.
 func TestStress(t *testing.T) {
+	StartWatchdog(120 * time.Second)
 	seed := int64(envInt("VERIF_SEED", 1))
 	thorough := os.Getenv("VERIF_TIER") == "thorough"
 	rng := rand.New(rand.NewSource(seed))
@@ -157,6 +159,7 @@ func perms(n int) [][]int {
 // TestOrders: every reply order for 1..5 outstanding calls, each reply cut into random segments,
 // kinds drawn per request.
 func TestOrders(t *testing.T) {
+	StartWatchdog(120 * time.Second)
 	seed := int64(envInt("VERIF_SEED", 1))
 	rep := &Report{Engine: "clnt-orders", Stats: map[string]any{}}
 	maxN := envInt("VERIF_MAXN", 5)
@@ -183,6 +186,7 @@ func TestOrders(t *testing.T) {
 // TestCut: C10 crash points. For sessions with 0..4 outstanding calls the reply stream is cut
 // after every byte offset (then the connection dies); calls entering after the failure.
 func TestCut(t *testing.T) {
+	StartWatchdog(120 * time.Second)
 	seed := int64(envInt("VERIF_SEED", 1))
 	rep := &Report{Engine: "clnt-cut", Stats: map[string]any{}}
 	variants := envInt("VERIF_VARIANTS", 2)
@@ -221,6 +225,7 @@ func TestCut(t *testing.T) {
 // 0..n of them answered, the peer closes / sends garbage of every class / a reply to an unknown
 // tag / (optionally) an oversize frame, or the application unmounts; two calls enter afterwards.
 func TestFaults(t *testing.T) {
+	StartWatchdog(120 * time.Second)
 	seed := int64(envInt("VERIF_SEED", 1))
 	rep := &Report{Engine: "clnt-faults", Stats: map[string]any{}}
 	faults := []string{"close", "unmount", "unknown"}
@@ -267,6 +272,7 @@ func TestFaults(t *testing.T) {
 // TestLateCalls: after the connection failed, more calls than there are tags must all return an
 // error (a call that does not return is a hang).
 func TestLateCalls(t *testing.T) {
+	StartWatchdog(120 * time.Second)
 	seed := int64(envInt("VERIF_SEED", 1))
 	n := envInt("VERIF_N", 70000)
 	rep := &Report{Engine: "clnt-latecalls", Stats: map[string]any{}}
@@ -297,6 +303,7 @@ func TestLateCalls(t *testing.T) {
 // TestTagFailure: Tag-interface requests outstanding when the connection fails must complete with
 // an error. (Run in a child process: as coded the Tag's goroutine panics.)
 func TestTagFailure(t *testing.T) {
+	StartWatchdog(120 * time.Second)
 	seed := int64(envInt("VERIF_SEED", 1))
 	rep := &Report{Engine: "clnt-tagfailure", Stats: map[string]any{}}
 	for _, fault := range []string{"close", "unknown", "unmount"} {
